@@ -479,9 +479,9 @@ var stemExtra = map[string][]string{
 	"it_light": {"abcdie", "abcdhe", "abcdee", "abcdhi", "abcdii", "abcdei", "abcdia", "abcdea", "abcdio", "abcdeo", "abcde", "àáâäòóôöèéêëùúûüìíîï"},
 	"pt_light": {"abres", "abses", "ables", "abzes", "abns", "abcns", "abeis", "abéis", "abais", "abóis", "abcis", "ões", "aões", "abães", "abmente", "abcmente", "abs", "abcs",
 		"abcdinha", "abcdiaca", "abcdeira", "abcdosa", "abcdica", "abcdida", "abcdada", "abcdiva", "abcdama", "abcdona", "abcdora", "abcdesa", "abcdena", "abca", "abcde", "àáâäãòóôöõèéêëùúûüìíîïç"},
-	"ar_normalize": {"ـ", "ـــ", "اَ", "َُِّْ", "آأإ", "ىة"},
-	"ar_stem":      {"و", "وا", "واب", "وابت", "الا", "الاب", "والاب", "للاب", "ابها", "ابتها", "هاها", "الها", "وه", "وهي"},
-	"fa_normalize": {"ٔ", "ۀ", "هٔ", "ٔٔ", "یےۓکۀہ"},
+	"ar_normalize":  {"ـ", "ـــ", "اَ", "َُِّْ", "آأإ", "ىة"},
+	"ar_stem":       {"و", "وا", "واب", "وابت", "الا", "الاب", "والاب", "للاب", "ابها", "ابتها", "هاها", "الها", "وه", "وهي"},
+	"fa_normalize":  {"ٔ", "ۀ", "هٔ", "ٔٔ", "یےۓکۀہ"},
 	"ckb_normalize": {"‌", "ه‌", "‌ه", "ه", "هه", "ر", "رر", "ـ", "‍", "\u200e\u200f", "\u00ad", "\ufeff", "يىكةھڒ"},
 	"ckb_stem":      {"دا", "ابجددا", "ابجدهدا", "نا", "ابجدنا", "ەوە", "مان", "یان", "تان", "ێکی", "یەکی", "ێک", "یەک", "ەکە", "کە", "ەکان", "کان", "یانی", "انی", "ان", "یانە", "انە", "ایە", "ەیە", "ە", "ی"},
 	"hi_normalize":  {"न्", "न्न्", "न", "़", "़़", "्", "‍", "‌", "ँ", "ऩऱऴक़ख़ग़ज़ड़ढ़फ़य़"},
@@ -523,6 +523,14 @@ func genStem(r *hlib.Rand, nStage int, emit func(string)) {
 		}
 		for i := 0; i < nStage; i++ {
 			words = append(words, s.word(r))
+		}
+		// every letter of the script alone and in final position (rules that look at runes[i+1], at the last rune, …)
+		for _, l := range s.letters {
+			var b strings.Builder
+			for i := r.Intn(4); i > 0; i-- {
+				b.WriteRune(s.letters[r.Intn(len(s.letters))])
+			}
+			words = append(words, string(l), b.String()+string(l))
 		}
 		for _, w := range words {
 			emit("stem " + name + " " + hlib.Hex([]byte(w)))
